@@ -47,7 +47,9 @@ func TestC07EndToEnd(t *testing.T) {
 	lab.Assume("L1: a scripted http.RoundTripper stands in for http.Transport; ErrAbortHandler panics are recovered by the harness as net/http's server would")
 	maxLen := lab.Scale(40, 80)
 	lab.Check(t, sub, 3000, 100000, func(rt *rapid.T) {
-		c := Cfg{FT: rapid.IntRange(1, 3).Draw(rt, "ft"), ST: rapid.IntRange(1, 3).Draw(rt, "st"), MR: rapid.IntRange(1, 3).Draw(rt, "mr"),
+		st := rapid.IntRange(1, 3).Draw(rt, "st")
+		// configuration validation only accepts max_requests >= success_threshold
+		c := Cfg{FT: rapid.IntRange(1, 3).Draw(rt, "ft"), ST: st, MR: rapid.IntRange(st, 3).Draw(rt, "mr"),
 			Interval: time.Duration(rapid.SampledFrom([]int{1, 5, 60}).Draw(rt, "interval")) * time.Second,
 			Timeout:  time.Duration(rapid.SampledFrom([]int{1, 5, 60}).Draw(rt, "timeout")) * time.Second}
 		strategy := rapid.SampledFrom(lab.Strategies).Draw(rt, "strategy")
